@@ -380,15 +380,21 @@ fn case_text(q: &Q, o: &Out) -> String {
 struct Limits { max_segs: usize, max_paths_c04: usize, max_paths_c19: usize, soup_k: u64 }
 
 /// a query of the well-formed stream; `variant`: 0 plain, 1 shuffled, 2 duplicated + shuffled,
-/// 3 all non-core segments, 4 refreshed segment (tie case, wf = false)
+/// 3 all non-core segments, 4 refreshed segment (tie case, wf = false), 5 random subset of the
+/// segments (still well-formed; fewer or no paths)
 fn topo_query(t: &Topo, src: u64, dst: u64, variant: u64, rng: &mut Rng) -> Q {
     let (cs, ns) = beacon(t, rng);
     let (mut cores, mut ncs) = select(t, &cs, &ns, src, dst, variant == 3);
     let mut wf = true;
     let (stream, vname) = match variant {
         0 => ("c04", "plain"), 1 => ("c04", "shuffled"), 2 => ("c04", "dup+shuffled"), 3 => ("c04", "all_noncores"),
+        5 => ("c04", "subset"),
         _ => ("refresh", "refreshed_segment"),
     };
+    if variant == 5 {
+        cores.retain(|_| !rng.chance(1, 3));
+        ncs.retain(|_| !rng.chance(1, 3));
+    }
     if variant == 2 {
         for _ in 0..rng.range(1, 3) {
             let (nc, nn) = (cores.len(), ncs.len());
@@ -748,7 +754,7 @@ fn main() {
         topo_query(&topos[t], src, dst, variant, rng)
     };
     let pick_variant = |rng: &mut Rng| -> u64 {
-        match rng.below(100) { 0..=34 => 0, 35..=54 => 1, 55..=74 => 2, 75..=89 => 3, _ => 4 }
+        match rng.below(100) { 0..=29 => 0, 30..=47 => 1, 48..=65 => 2, 66..=79 => 3, 80..=89 => 5, _ => 4 }
     };
 
     let mut attempts = 0usize;
